@@ -423,12 +423,36 @@ def _discharged_locally(ctx: Any, f: FuncInfo, node: ast.AST, cont: ast.AST, key
                     arm_nodes = [s for s, lab in t.succ if lab is arm]
                     if arm_nodes and all(s is host or cfg.dominates(s, host) for s in arm_nodes):
                         return True, f'guarded by `{norm(t.ast)[:60]}`'
-        if t is host and t.kind in ('test', 'loop_test') and isinstance(t.ast, ast.BoolOp) and isinstance(t.ast.op, ast.And):
-            # short-circuit inside the same condition: an earlier conjunct guards a later one
-            vals = t.ast.values
-            for i, v in enumerate(vals):
-                if any(x is node for x in ast.walk(v)) and any(establishes(u, True) for u in vals[:i]):
-                    return True, f'guarded by an earlier conjunct of `{norm(t.ast)[:60]}`'
+    # short-circuit inside the expression that contains the access: an earlier operand of an enclosing
+    # `and` (true) / `or` (false) / conditional expression guards a later one
+    def guarded_within(e: ast.AST) -> bool:
+        if e is node:
+            return False
+        if isinstance(e, ast.BoolOp):
+            for i, v in enumerate(e.values):
+                if any(x is node for x in ast.walk(v)):
+                    want = isinstance(e.op, ast.And)
+                    if any(establishes(u, want) for u in e.values[:i]):
+                        return True
+                    return guarded_within(v)
+            return False
+        if isinstance(e, ast.IfExp):
+            if any(x is node for x in ast.walk(e.body)):
+                return establishes(e.test, True) or guarded_within(e.body)
+            if any(x is node for x in ast.walk(e.orelse)):
+                return establishes(e.test, False) or guarded_within(e.orelse)
+            return guarded_within(e.test)
+        for c in ast.iter_child_nodes(e):
+            if any(x is node for x in ast.walk(c)):
+                return guarded_within(c)
+        return False
+
+    for e in host.exprs():
+        if any(x is node for x in ast.walk(e)) and guarded_within(e):
+            return True, 'guarded by an earlier operand of the same condition (short-circuit)'
+    for t in []:
+        if False:
+            pass
     # present-or-stored: `if k not in c: c[k] = ...` before the access (the absent arm stores the key)
     for t in cfg.nodes:
         tt, neg = t.ast, False
